@@ -694,8 +694,35 @@ func scenFifoFullBuffer(tr *vtrace.Tracer, kind string) error {
 			return fmt.Errorf("the send buffer did not take request %d", i)
 		}
 	}
+	// the next call's hand-off to the queue is held at its gate
+	want := l.e.PeekTok() + 1
+	g2 := l.tr.NewGate(func(e vtrace.Event) bool { return e.Ev == "HandOffWait" && e.Node == 1 && e.Tok == want })
+	defer g2.Open()
 	var last *lifeCall
-	for i := 0; i < 4; i++ {
+	c5 := l.call(kind, 1, false, false)
+	if !g2.Arrived(SyncTimeout) {
+		return fmt.Errorf("the call did not reach its hand-off")
+	}
+	if returned(c5, 30*time.Millisecond) {
+		// the invocation has returned although its request has not been handed to the node's
+		// queue: let the sender make room, invoke the next call (it finds room), and only then
+		// let the first request through
+		open()
+		tr.Await(from, SyncTimeout, func(e vtrace.Event) bool { return e.Ev == "Dequeue" && e.Node == 1 && e.Tok > first.tok+1 })
+		c6 := l.call(kind, 1, false, false)
+		returned(c6, QuietT)
+		last = c6
+		g2.Open()
+		tr.Await(from, QuietT, func(e vtrace.Event) bool { return e.Ev == "HStart" && e.Tok == c5.tok })
+	} else {
+		g2.Open()
+		if !returned(c5, 30*time.Millisecond) {
+			open()
+			returned(c5, QuietT)
+		}
+		last = c5
+	}
+	for i := 0; i < 3; i++ {
 		c := l.call(kind, 1, false, false)
 		if !returned(c, 30*time.Millisecond) {
 			// the invocation waits for room in the buffer (or for its reply): let the sender go on
